@@ -151,6 +151,7 @@ func genC09Script(t *rapid.T, w cfggen.World, session uint32) c09Script {
 
 func genC09(t *rapid.T) c09Case {
 	c := c09Case{World: cfggen.GenWorld(t), Mode: rapid.SampledFrom([]string{"mux", "mux", "conns"}).Draw(t, "mode")}
+	drawExtraKeys(t, &c.World.Cfg)
 	n := rapid.IntRange(2, 5).Draw(t, "nscripts")
 	idPool := []uint32{0x101, 0x201, 0x10000101, 0x5, 0x6, 0xffffff01}
 	nconn := 1
